@@ -27,7 +27,7 @@ for _id,_fam in (('C13','AVX2'),('C14','AVX-512 (two interleaved states)')):
         'note': 'Trusted: intrinsics model (bound by C02/C11 conformance), __int128 oracle, scaled form of the 8-bit precondition. Composition bugs need two or more non-canonical values in one lane (probability ~2^-64 at full width); the scaled enumeration covers every such combination, the native run covers them through exact-product generators.',
     }
 
-ENGINES.append({'name': 'cfgx', 'path': 'harness', 'serves_properties': ['C03','C04','C05','C07','C08'], 'kind_free_text': 'configuration explorer: full cross product of shape/length/thread/backend dimensions, exact-size guard-page arenas, one process per case group with per-case crash attribution, independent reference'})
+ENGINES.append({'name': 'cfgx', 'path': 'harness', 'serves_properties': ['C03','C04','C05','C07','C08','C19'], 'kind_free_text': 'configuration explorer: full cross product of shape/length/thread/backend dimensions, exact-size guard-page arenas, one process per case group with per-case crash attribution, independent reference'})
 CHECKS['C06'] = {
     'engine': 'simw+lift64',
     'technique': 'exhaustive single-position deviation over all 2^16 lane values (and position pairs) on the whole permutation recompiled at w=8; table obligations; bounded-deviation enumeration on the compiled code',
@@ -73,4 +73,11 @@ CHECKS['C20'] = {
     'technique': 'exhaustive enumeration of all operand tuples on the device code executed through a PTX interpreter at word width w=4,6 (8 thorough), alphabet pairs at 64 bits; exhaustive table equations',
     'text': 'gl64_t.cuh is converted from its text on every run (every asm statement becomes interpreter calls with carry flag and predicates persisting as PTX defines), compiled for __CUDA_ARCH__ 700 and 600, and every public arithmetic operation is run on all operand tuples at reduced word width and on alphabet pairs at 64 bits against __int128 arithmetic with canonical results required; the three device tables are checked row by row (328 equations) against the CPU table and their defining relations.',
     'note': 'No nvcc/GPU in the sandbox: model traces cannot be replayed on a device (traces_validated_against_impl = 0); trusted base is the PTX semantics in engine/ptxw/ptxw.hpp. An unknown opcode makes the arithmetic half report unavailable instead of guessing.',
+}
+
+CHECKS['C19'] = {
+    'engine': 'cfgx',
+    'technique': 'explicit-state breadth-first search over call histories on the real object, canonical state key from private fields, differential (fresh object) + closed-form oracle per transition',
+    'text': 'Starting from a freshly constructed object, every call of a 192-call alphabet (NTT/INTT/extendPol x sizes x columns x phases x blocks) is applied from every distinct canonical object state until a BFS level adds no new state; each transition output is compared with a fresh object and with the closed-form oracle; history replay must reproduce the recorded key. The object is destroyed after every explored history.',
+    'note': 'Key completeness argument in DESIGN §4 C19: results depend on call arguments, constructor tables, (r,r_) and the process-wide default team size only. Objects D in {8 (16,4 thorough)}; larger domains follow the same code paths (C03-C05 cover sizes).',
 }
